@@ -67,14 +67,26 @@ let run fidx ops =
     if o <> "" then begin
       let parts = String.split_on_char ':' o in
       let empty = (!st).avail = [] in
+      (* a mode b<n> gives the wait a budget of n refills (its time-out strikes after them); b<n> and B make the
+         result carry #<number of arrivals read> like the harness's tiny-deadline operations *)
+      let mode = match parts with
+        | ["wr"; _; m] | ["ws"; m] | ["wc"; m] | ["ro"; m] -> m
+        | _ -> "" in
+      let counted = String.length mode > 0 && (mode.[0] = 'b' || mode = "B") in
+      let budget = if String.length mode > 1 && mode.[0] = 'b'
+        then nat_of_int (int_of_string (String.sub mode 1 (String.length mode - 1))) else big in
+      let avail_before = List.length (!st).avail in
+      if parts = ["nop"] then begin
+        ops_out := o :: !ops_out; res_out := "T#0|" :: !res_out
+      end else
       let (op, arrival) = match parts with
         | ["a"; spec] -> let m = msg_of_spec spec in (Arrive m, Some m)
         | ["tr"; s] -> (TryResp (n_of_int (int_of_string s)), None)
         | ["ts"] -> (TrySignal, None)
         | ["tc"] -> (TryCall, None)
-        | "wr" :: s :: _ -> (WaitResp (n_of_int (int_of_string s), big), None)
-        | "ws" :: _ -> (WaitSignal big, None)
-        | "wc" :: _ -> (WaitCall big, None)
+        | "wr" :: s :: _ -> (WaitResp (n_of_int (int_of_string s), budget), None)
+        | "ws" :: _ -> (WaitSignal budget, None)
+        | "wc" :: _ -> (WaitCall budget, None)
         | "ro" :: _ -> (RefillOnce, None)
         | ["ra"] -> (RefillAll, None)
         | _ -> failwith ("bad op " ^ o) in
@@ -94,6 +106,7 @@ let run fidx ops =
           let tok = match arrival with
             | Some m -> if filter m then "+" else "-"
             | None -> show_res r in
+          let tok = if counted then Printf.sprintf "%s#%d" tok (avail_before - List.length st'.avail) else tok in
           ops_out := o' :: !ops_out;
           res_out := (tok ^ "|" ^ String.concat ";" (List.map show_err sent)) :: !res_out
       | _ -> ops_out := o :: !ops_out; res_out := "PANIC|" :: !res_out
